@@ -462,7 +462,7 @@ def dropNum : Bytes → Bytes
 
 mutual
   /-- one value at the head of the input (no leading whitespace), returning the rest -/
-  def pValue : Nat → Bytes → Except Err (V × Bytes)
+  def pValue (keep : Bool) : Nat → Bytes → Except Err (V × Bytes)
     | 0, _ => .error .fuel
     | _ + 1, [] => .error .eof
     | f + 1, b :: s =>
@@ -472,10 +472,10 @@ mutual
         | b1 :: s1 =>
           if b1 == 0x5d then .ok (.arr [], s1)
           else
-            match pValue f (b1 :: s1) with
+            match pValue keep f (b1 :: s1) with
             | .error e => .error e
             | .ok (x, s2) =>
-              match pRest f s2 with
+              match pRest keep f s2 with
               | .error e => .error e
               | .ok (xs, s3) => .ok (.arr (x :: xs), s3)
       else if b == 0x7b then
@@ -484,16 +484,16 @@ mutual
         | b1 :: s1 =>
           if b1 == 0x7d then .ok (.obj [], s1)
           else
-            match pField f (b1 :: s1) with
+            match pField keep f (b1 :: s1) with
             | .error e => .error e
             | .ok (kx, s2) =>
-              match pFields f s2 with
+              match pFields keep f s2 with
               | .error e => .error e
               | .ok (fs, s3) => .ok (.obj (kx :: fs), s3)
       else if b == 0x22 then
         match pStr s with
         | .error e => .error e
-        | .ok (cs, esc, r) => .ok (.str ⟨cs, esc⟩, r)
+        | .ok (cs, esc, r) => .ok (.str ⟨cs, keep && esc⟩, r)
       else if b == 0x6e then
         match s with
         | 0x75 :: 0x6c :: 0x6c :: r => .ok (.null, r)
@@ -511,7 +511,7 @@ mutual
         else .error (.bad "number")
       else .error (.bad "value")
   /-- after an array element: `, value …` or `]` -/
-  def pRest : Nat → Bytes → Except Err (List V × Bytes)
+  def pRest (keep : Bool) : Nat → Bytes → Except Err (List V × Bytes)
     | 0, _ => .error .fuel
     | f + 1, s =>
       match skipWs s with
@@ -519,15 +519,15 @@ mutual
       | b :: s1 =>
         if b == 0x5d then .ok ([], s1)
         else if b == 0x2c then
-          match pValue f (skipWs s1) with
+          match pValue keep f (skipWs s1) with
           | .error e => .error e
           | .ok (x, s2) =>
-            match pRest f s2 with
+            match pRest keep f s2 with
             | .error e => .error e
             | .ok (xs, s3) => .ok (x :: xs, s3)
         else .error (.bad "array")
   /-- `"key" : value` (no leading whitespace) -/
-  def pField : Nat → Bytes → Except Err ((Str × V) × Bytes)
+  def pField (keep : Bool) : Nat → Bytes → Except Err ((Str × V) × Bytes)
     | 0, _ => .error .fuel
     | f + 1, s =>
       match s with
@@ -541,13 +541,13 @@ mutual
             | [] => .error .eof
             | b1 :: s2 =>
               if b1 == 0x3a then
-                match pValue f (skipWs s2) with
+                match pValue keep f (skipWs s2) with
                 | .error e => .error e
-                | .ok (x, s3) => .ok ((⟨cs, esc⟩, x), s3)
+                | .ok (x, s3) => .ok ((⟨cs, keep && esc⟩, x), s3)
               else .error (.bad "colon")
         else .error (.bad "key")
   /-- after an object member: `, member …` or `}` -/
-  def pFields : Nat → Bytes → Except Err (List (Str × V) × Bytes)
+  def pFields (keep : Bool) : Nat → Bytes → Except Err (List (Str × V) × Bytes)
     | 0, _ => .error .fuel
     | f + 1, s =>
       match skipWs s with
@@ -555,23 +555,27 @@ mutual
       | b :: s1 =>
         if b == 0x7d then .ok ([], s1)
         else if b == 0x2c then
-          match pField f (skipWs s1) with
+          match pField keep f (skipWs s1) with
           | .error e => .error e
           | .ok (kx, s2) =>
-            match pFields f s2 with
+            match pFields keep f s2 with
             | .error e => .error e
             | .ok (fs, s3) => .ok (kx :: fs, s3)
         else .error (.bad "object")
 end
 
-/-- one value with the given fuel, returning the unread rest -/
-def readPrefix (fuel : Nat) (s : Bytes) : Except Err (V × Bytes) := pValue fuel (skipWs s)
-
-/-- JSON-text = ws value ws (RFC 8259 §2); duplicates kept, `esc` records the source spelling -/
-def read (s : Bytes) : Except Err V :=
-  match readPrefix (s.length + 1) s with
+/-- JSON-text = ws value ws (RFC 8259 §2); duplicates kept in order. With `keep` the strings
+remember whether their source span had a backslash (what the cursor printer looks at). -/
+def readWith (keep : Bool) (s : Bytes) : Except Err V :=
+  match pValue keep (s.length + 1) (skipWs s) with
   | .error e => .error e
   | .ok (v, r) => if (skipWs r).isEmpty then .ok v else .error .trailing
+
+/-- the reference reader: the value a conforming JSON parser sees (spelling forgotten) -/
+def read (s : Bytes) : Except Err V := readWith false s
+
+/-- the reader the driver uses for *input* documents (keeps the spelling bit) -/
+def readSrc (s : Bytes) : Except Err V := readWith true s
 
 mutual
   /-- forget the spelling bits (`esc`), keeping the value a JSON reader sees -/
@@ -608,5 +612,105 @@ duplicates collapsed (unless `--preserve-input` on the cursor route), keys sorte
 (materialised route), number tokens re-spelled by the route's `fmt`, spelling bits forgotten. -/
 def canon (o : Opts) (r : Route) (fmt : Bytes → Bytes) (v : V) : V :=
   norm (mapNum (o.cfg r fmt).fmt (o.prep r v))
+
+/-! ## cursor model (C27)
+
+What `JsonCursor` exposes to the streaming printer: the node under the cursor (`value`), its first
+child (`first_child`) and its next sibling (`next_sibling`); for an object member also the member's
+key (`key()` of the field the cursor came from). A position in the document is represented by the
+node and the members that follow it in its parent (the cons-list view `uncons` walks in the Rust
+code); `Cur.ofPath` resolves a path of child indices from the root to such a position. -/
+
+structure Cur where
+  node : V
+  key : Option Str
+  rest : List (Option Str × V)
+
+def Cur.root (v : V) : Cur := ⟨v, none, []⟩
+
+def Cur.value (c : Cur) : V := c.node
+
+def elemsOf : List V → List (Option Str × V)
+  | [] => []
+  | x :: xs => (none, x) :: elemsOf xs
+
+def membersOf : List (Str × V) → List (Option Str × V)
+  | [] => []
+  | (k, x) :: fs => (some k, x) :: membersOf fs
+
+def Cur.firstChild (c : Cur) : Option Cur :=
+  match c.node with
+  | .arr (x :: xs) => some ⟨x, none, elemsOf xs⟩
+  | .obj ((k, x) :: fs) => some ⟨x, some k, membersOf fs⟩
+  | _ => none
+
+def Cur.nextSibling (c : Cur) : Option Cur :=
+  match c.rest with
+  | [] => none
+  | (k, x) :: r => some ⟨x, k, r⟩
+
+/-- walk `n` siblings to the right -/
+def Cur.sibling : Cur → Nat → Option Cur
+  | c, 0 => some c
+  | c, n + 1 => match c.nextSibling with
+    | some d => d.sibling n
+    | none => none
+
+/-- the position a path of child indices designates (first_child, then `i` next_sibling hops) -/
+def Cur.ofPath : Cur → List Nat → Option Cur
+  | c, [] => some c
+  | c, i :: p => match c.firstChild with
+    | some d => match d.sibling i with
+      | some e => e.ofPath p
+      | none => none
+    | none => none
+
+def keyBytes (c : Cfg) (cur : Cur) : Bytes :=
+  match cur.key with
+  | some k => strBytes c k ++ colon c
+  | none => []
+
+mutual
+  /-- `print_json` over a cursor: scalars through `value`, containers by walking `first_child`
+  and `next_sibling`. The fuel bounds the number of navigation steps. -/
+  def streamAt (c : Cfg) : Nat → Nat → Cur → Bytes
+    | 0, _, _ => []
+    | f + 1, lvl, cur =>
+      match cur.value with
+      | .arr _ =>
+        match cur.firstChild with
+        | none => [0x5b, 0x5d]
+        | some ch =>
+          0x5b :: (gap c (lvl + 1) ++ streamAt c f (lvl + 1) ch ++ streamSibs c f (lvl + 1) ch
+            ++ gap c lvl ++ [0x5d])
+      | .obj _ =>
+        match cur.firstChild with
+        | none => [0x7b, 0x7d]
+        | some ch =>
+          0x7b :: (gap c (lvl + 1) ++ keyBytes c ch ++ streamAt c f (lvl + 1) ch
+            ++ streamSibs c f (lvl + 1) ch ++ gap c lvl ++ [0x7d])
+      | v => render c lvl v
+  /-- everything after `cur` in its parent: `, gap [key:] value` per following sibling -/
+  def streamSibs (c : Cfg) : Nat → Nat → Cur → Bytes
+    | 0, _, _ => []
+    | f + 1, lvl, cur =>
+      match cur.nextSibling with
+      | none => []
+      | some nx => 0x2c :: (gap c lvl ++ keyBytes c nx ++ streamAt c f lvl nx ++ streamSibs c f lvl nx)
+end
+
+mutual
+  /-- navigation steps the streaming printer spends on a value -/
+  def V.steps : V → Nat
+    | .arr xs => 1 + stepsList xs
+    | .obj fs => 1 + stepsFields fs
+    | _ => 1
+  def stepsList : List V → Nat
+    | [] => 1
+    | x :: xs => 1 + x.steps + stepsList xs
+  def stepsFields : List (Str × V) → Nat
+    | [] => 1
+    | (_, x) :: fs => 1 + x.steps + stepsFields fs
+end
 
 end SV.JqOut
